@@ -135,6 +135,9 @@ impl DataLog {
                     .map(|(_, filter_idx)| *filter_idx)
                     .collect();
 
+                #[cfg(rumqtt_verif)]
+                crate::verif::record(format!("matches {:?}", v));
+
                 if !v.is_empty() {
                     self.publish_filters.insert(topic.to_owned(), v.clone());
                 }
@@ -298,6 +301,16 @@ impl DataLog {
 
             is_valid
         });
+
+        #[cfg(rumqtt_verif)]
+        crate::verif::record(format!(
+            "retained {:?}",
+            self.retained_publishes
+                .iter()
+                .filter(|(topic, _)| matches(topic, filter))
+                .map(|(topic, _)| topic.clone())
+                .collect::<Vec<_>>()
+        ));
 
         // no need to include timestamp when returning
         self.retained_publishes
